@@ -197,6 +197,33 @@ def work_ints(task):
                                                                               % (texts[0], v, dom, rb.get("res") or rb.get("cerror")), "signature": "C20:intrb:" + lit})
             if (v < 0 or v >= 1 << 63) and rnd.random() < 0.01:
                 ev.sample({"literal": lit, "renderings": dict(zip(["%s", "%d", "%x", "%o", "%b"], texts[:5]))})
+            # several integers of different domains written to one stream: a sequence (also nested) through "%s"
+            # must read back as an equal sequence -- every element in its own radix
+            if i % 3 == 0:
+                def some():
+                    d2 = rnd.choice(["dec", "hex", "oct", "bin"])
+                    v2 = rnd.choice(edges + [rnd.randint(-300, 300), rnd.randint(0, 1 << 40)])
+                    if v2 == 0:
+                        d2 = "dec"
+                    return render_int(v2, d2, rnd.randint(0, 2))
+                items = [lit] + [some() for _ in range(rnd.randint(1, 4))]
+                rnd.shuffle(items)
+                if rnd.random() < 0.4:
+                    items.insert(rnd.randint(0, len(items)), "[" + ", ".join(some() for _ in range(rnd.randint(1, 2))) + "]")
+                seq = "[" + ", ".join(items) + "]"
+                r1 = drv.run(seq + ' (|Q| Q "%s" Q)')
+                ok1 = "res" in r1 and len(r1["res"]) == 1
+                txt = bytes.fromhex(r1["res"][0][0]["x"]).decode("latin-1") if ok1 else None
+                r2 = drv.run(txt) if ok1 else {}
+
+                def vd(x):
+                    return ("q", tuple(vd(e) for e in x["e"])) if x["t"] == "q" else (x["t"], x.get("v"), x.get("d"))
+                ev.case(key=("seq", seq), nontrivial=True)
+                ev.label("int:sequence")
+                if not ok1 or "res" not in r2 or len(r2["res"]) != 1 or vd(r2["res"][0][0]) != vd(r1["res"][0][1]):
+                    ev.violations.append({"property": PID, "query": seq + ' "%s"', "reason": "%s renders as %r, which reads back as %r" % (
+                        seq, txt, [x.get("f") and bytes.fromhex(x["f"]).decode("latin-1") for x in (r2.get("res") or [[{}]])[0]] or r2.get("cerror")),
+                        "signature": "C20:intseq:" + seq})
     finally:
         drv.kill()
     return ev
